@@ -191,7 +191,8 @@ def configure_v1(config: dict[str, Any]) -> dict[str, Any]:
     # grid and forcing
     conf2["grid"] = dict()
     conf2["forcing"] = dict()
-    if "ladim1.gridforce.ROMS" in config["gridforce"]["module"]:
+    # Both spellings are found in version 1 configuration files
+    if config["gridforce"]["module"] in ["ladim1.gridforce.ROMS", "ladim.gridforce.ROMS"]:
         conf2["grid"]["module"] = "ladim.ROMS"
         conf2["forcing"]["module"] = "ladim.ROMS"
     else:
@@ -224,6 +225,8 @@ def configure_v1(config: dict[str, Any]) -> dict[str, Any]:
         conf2["grid"]["subgrid"] = config["gridforce"]["subgrid"]
     if "extra_forcing" in config["gridforce"]:
         conf2["forcing"]["extra_forcing"] = config["gridforce"]["extra_forcing"]
+    elif "ibm_forcing" in config["gridforce"]:  # The version 1 name
+        conf2["forcing"]["extra_forcing"] = config["gridforce"]["ibm_forcing"]
 
     # state
     conf2["state"] = dict()
@@ -291,6 +294,9 @@ def configure_v1(config: dict[str, Any]) -> dict[str, Any]:
             data_model=config["output_variables"].get("format", "NETCDF3_CLASSIC")
         ),
     )
+    for key in ["numrec", "skip_initial"]:
+        if key in config["output_variables"]:
+            conf2["output"][key] = config["output_variables"][key]
     for var in config["output_variables"]["instance"]:
         conf2["output"]["instance_variables"][var] = dict()
         D = config["output_variables"][var].copy()
